@@ -23,6 +23,7 @@ def keys_on_patch(pdir, pids, slot):
     if p.returncode:
         return {'error': {'patch does not apply: ' + p.stdout[-200:]}}
     shutil.rmtree(os.path.join(d, '.git'), ignore_errors=True)
+    open(os.path.join(d, '.patch_id'), 'w').write(os.path.basename(pdir))
     ks = selftest.keys_for(d, pids)
     t = os.path.join(extract.WORK, 'target-default-%s' % hashlib.sha1(d.encode()).hexdigest()[:8])
     return ks
